@@ -31,6 +31,8 @@ from lbry.blob.blob_manager import BlobManager
 from lbry.blob.blob_file import is_valid_blobhash, BlobFile
 from lbry.error import InvalidBlobHashError
 from lbry.stream.descriptor import StreamDescriptor
+from lbry.stream.stream_manager import StreamManager
+from lbry.schema.claim import Claim
 import lbry.stream.descriptor as descriptor_module
 
 from cryptography.hazmat.primitives.ciphers import Cipher, modes
@@ -103,10 +105,13 @@ class World:
         self.src_dir = os.path.join(self.root, 'src')
         os.makedirs(self.blob_dir, exist_ok=True)
         os.makedirs(self.src_dir, exist_ok=True)
+        self.vol_dir = os.path.join(self.root, 'other_volume')      # where relocated blobs live (symlink targets)
+        os.makedirs(self.vol_dir, exist_ok=True)
         self.db_path = os.path.join(self.root, 'lbrynet.sqlite')
         self.conf = Config(data_dir=self.root, wallet_dir=self.root, download_dir=self.root,
                            config=os.path.join(self.root, 'settings.yml'))
         self.conf.track_bandwidth = False          # no background bandwidth task (unrelated to the property)
+        self.conf.reflect_streams = False          # no reflector uploads (network)
         self.conf.concurrent_blob_announcers = 100000   # get_blobs_to_announce limits to 10x this: never truncate
         self.storage = None
         self.bm = None
@@ -118,7 +123,21 @@ class World:
         self.storage = SQLiteStorage(self.conf, self.db_path, loop=self.loop)
         await self.storage.open()
         self.bm = BlobManager(self.loop, self.blob_dir, self.storage, self.conf)
+        # the real stream (file) manager on top, without wallet, DHT node or analytics
+        self.sm = StreamManager(self.loop, self.conf, self.bm, None, self.storage, None)
         self.dead = False
+
+    async def stream_manager_start(self):
+        """the second half of a daemon start: what FileManager.start() runs for streams"""
+        await self.sm.initialize_from_database()
+        await self.drain()
+
+    async def stream_manager_stop(self):
+        if getattr(self, 'sm', None) is not None:
+            try:
+                await self.sm.stop()
+            except Exception:
+                pass
 
     async def drain(self):
         me = asyncio.current_task()
@@ -142,11 +161,21 @@ class World:
             await self.storage.close()
         self.storage = None
         self.bm = None
+        self.sm = None
         self.dead = True
 
-    async def restart(self, mode, save=None, inflight=False):
+    async def restart(self, mode, save=None, inflight=False, daemon=False):
+        """daemon: a whole daemon start -- BlobManager.setup() and then the stream manager's start-up"""
+        await self._restart(mode, save, inflight)
+        if daemon:
+            await self.stream_manager_start()
+
+    async def _restart(self, mode, save=None, inflight=False):
         if save is not None:
             self.conf.save_blobs = save            # the setting the next process lifetime runs with
+        if self.bm is not None and not inflight and mode != 'new':
+            await self.drain()
+            await self.stream_manager_stop()
         if self.bm is not None and inflight:
             # in-process restart with database writes still queued: no yield to the loop before setup()
             self.bm.stop()
@@ -173,6 +202,7 @@ class World:
         try:
             if self.storage is not None:
                 await self.drain()
+                await self.stream_manager_stop()
                 if self.bm is not None:
                     self.bm.stop()
                 await self.storage.close()
@@ -186,8 +216,10 @@ class World:
             p = os.path.join(self.blob_dir, nm)
             if os.path.isdir(p):
                 out.append([hx(nm), 'd', 0])
+            elif os.path.islink(p) and not os.path.exists(p):
+                out.append([hx(nm), 'l', 0])                     # dangling symlink
             else:
-                out.append([hx(nm), 'f', os.path.getsize(p)])
+                out.append([hx(nm), 'f', os.path.getsize(p)])    # regular file or symlink to one (size of the target)
         return sorted(out)
 
     def rows(self):
@@ -317,6 +349,27 @@ class World:
         saved = descriptor_module.MAX_BLOB_SIZE
         descriptor_module.MAX_BLOB_SIZE = spec['chunk']
         try:
+            if crash is None and spec.get('managed'):
+                # StreamManager.create (create_stream + store_stream + save_published_file + ManagedStream), then what
+                # the daemon's publish does next: the claim and its link to the stream
+                stream = await self.sm.create(path, key=spec['key'], iv_generator=iter(ivs))
+                await self.drain()
+                idx = spec['index']
+                claim = Claim()
+                claim.stream.source.sd_hash = stream.sd_hash
+                claim.stream.title = 'c18 stream %d' % idx
+                txid = ('%02x' % (idx + 1)) * 32
+                await self.storage.save_claims([{
+                    'txid': txid, 'nout': 0, 'claim_id': ('%02x' % (idx + 1)) * 20, 'name': 'c18-%d' % idx,
+                    'amount': '1.0', 'height': 1, 'address': 'bC18', 'claim_sequence': 1, 'value': claim}])
+                await self.storage.save_content_claim(stream.stream_hash, txid + ':0')
+                await self.drain()
+                self.descriptors[stream.sd_hash] = stream.descriptor
+                # keep a copy of every blob file of the stream: "the user puts the blob back" restores true content
+                os.makedirs(os.path.join(self.root, 'backup'), exist_ok=True)
+                for h in [stream.sd_hash] + [b.blob_hash for b in stream.descriptor.blobs[:-1]]:
+                    shutil.copyfile(os.path.join(self.blob_dir, h), os.path.join(self.root, 'backup', h))
+                return 'done'
             if crash is None:
                 descriptor = await StreamDescriptor.create_stream(
                     self.loop, self.blob_dir, path, key=spec['key'], iv_generator=iter(ivs),
@@ -389,6 +442,29 @@ class World:
             else:
                 f.write(b'\x5a' * size)
 
+    def ext_link(self, n, target, to=None):
+        """a symlink named n: to a regular file of `target` bytes on the other volume (or to the entry `to` of the
+        blob directory itself), or dangling when target is None"""
+        p = os.path.join(self.blob_dir, n)
+        if os.path.lexists(p):
+            return
+        if target is None:
+            os.symlink(os.path.join(self.vol_dir, 'gone_' + hashlib.sha1(n.encode()).hexdigest()), p)
+            return
+        if to is not None:
+            os.symlink(os.path.join(self.blob_dir, to), p)
+            return
+        k = 0
+        while os.path.lexists(os.path.join(self.vol_dir, 'blob_%d' % k)):
+            k += 1
+        t = os.path.join(self.vol_dir, 'blob_%d' % k)
+        with open(t, 'wb') as f:
+            if target > 65536:
+                f.truncate(target)
+            else:
+                f.write(b'\x6b' * target)
+        os.symlink(t, p)
+
     def ext_dir(self, n):
         p = os.path.join(self.blob_dir, n)
         if not os.path.lexists(p):
@@ -409,7 +485,14 @@ class World:
         finally:
             con.close()
 
-    def ext_db(self, h, st):
+    def ext_db(self, h, st, con=None):
+        if con is not None:              # caller-held connection (long runs of forced rows): no commit per row
+            if st is None:
+                con.execute('delete from blob where blob_hash=?', (h,))
+            else:
+                con.execute('insert or ignore into blob values (?, ?, 0, 0, ?, 0, 0, 0, 0)', (h, 1, st))
+                con.execute('update blob set status=? where blob_hash=?', (st, h))
+            return
         con = sqlite3.connect(self.db_path, timeout=30)
         try:
             con.execute('pragma foreign_keys=off')
@@ -437,7 +520,17 @@ def model_ops(case):
     for o in case['ops']:
         k = o['op']
         m = {'op': k}
-        if k == 'restart' and o.get('save') is not None:
+        if k == 'restart' and o.get('daemon'):
+            # the streams that are managed files at this point of the history
+            managed = [p['stream'] for p in case['ops'][:len(out)] if p['op'] == 'publish' and p.get('managed')]
+            sts = []
+            for i in managed:
+                hs, sd = expected_of(case['streams'][i])
+                sts.append([hx(sd[0]), sd[1], [hx(h) for h, _ in hs]])
+            m = {'op': 'daemon_start', 'streams': sts}
+            if o.get('save') is not None:
+                m['save'] = bool(o['save'])
+        elif k == 'restart' and o.get('save') is not None:
             m = {'op': 'restart_save', 'b': bool(o['save'])}
         if o.get('q'):
             m['q'] = True
@@ -461,6 +554,8 @@ def model_ops(case):
             m.update(n=hx(resolve_name(case, o['n'])), size=o['size'])
         elif k in ('ext_dir', 'ext_remove'):
             m.update(n=hx(resolve_name(case, o['n'])))
+        elif k == 'ext_link':
+            m.update(n=hx(resolve_name(case, o['n'])), target=o['target'])
         elif k == 'ext_db':
             m.update(h=hx(resolve_name(case, o['h'])), st=o['st'])
         elif k == 'ext_mark':
@@ -507,19 +602,36 @@ def resolve_names(case, ns):
 
 
 async def run_ops(w, case, ops, on_restart, trace):
+    bulk = None          # one sqlite connection across a run of consecutive quiet ext_db ops (large instances)
     for o in ops:
         k = o['op']
+        if bulk is not None and not (k == 'ext_db' and o.get('q')):
+            bulk.commit()
+            bulk.close()
+            bulk = None
+        if k == 'ext_db' and o.get('q'):
+            if bulk is None:
+                bulk = sqlite3.connect(w.db_path, timeout=30)
+                bulk.execute('pragma foreign_keys=off')
+            w.ext_db(resolve_name(case, o['h']), o['st'], con=bulk)
+            trace.append({'r': 'done'})
+            continue
         if k == 'restart':
             # with writes in flight the pre-state cannot be observed without yielding to them: after-only clauses
             before = None if o.get('inflight') else dict(await w.observe(), lengths=w.lengths())
-            await w.restart(o.get('mode', 'new'), o.get('save'), inflight=bool(o.get('inflight')))
+            await w.restart(o.get('mode', 'new'), o.get('save'), inflight=bool(o.get('inflight')),
+                            daemon=bool(o.get('daemon')))
             r = 'done'
-            on_restart(before, dict(await w.observe(), lengths=w.lengths()))
+            on_restart(before, dict(await w.observe(), lengths=w.lengths()), daemon=bool(o.get('daemon')),
+                       save_switched=o.get('save') is not None)
         elif k == 'ext_file':
             n = resolve_name(case, o['n'])
             content = None
             if o.get('true_content') and n in case['blobs']:
                 content = blob_data(case, n)
+            if o.get('restore'):                         # the true blob file of a managed stream comes back
+                with open(os.path.join(w.root, 'backup', n), 'rb') as f:
+                    content = f.read()
             w.ext_file(n, o['size'], content)
             r = 'done'
         elif k == 'ext_dir':
@@ -527,6 +639,9 @@ async def run_ops(w, case, ops, on_restart, trace):
             r = 'done'
         elif k == 'ext_remove':
             w.ext_remove(resolve_name(case, o['n']))
+            r = 'done'
+        elif k == 'ext_link':
+            w.ext_link(resolve_name(case, o['n']), o['target'], o.get('to'))
             r = 'done'
         elif k == 'ext_db':
             w.ext_db(resolve_name(case, o['h']), o['st'])
@@ -550,6 +665,8 @@ async def run_ops(w, case, ops, on_restart, trace):
             spec['key'] = bytes.fromhex(spec['key'])
             spec['ivs'] = [bytes.fromhex(i) for i in spec['ivs']]
             spec['content'] = stream_content(spec)
+            spec['index'] = o['stream']
+            spec['managed'] = bool(o.get('managed'))
             r = await w.publish(spec, (o['k'], o.get('j', 0)) if k == 'publish_crash' else None,
                                 real_kill=bool(o.get('real_kill')))
         elif k == 'delete':
@@ -615,12 +732,12 @@ def child_main(argv):
         await w.boot()
         await w.bm.setup()
         trace = []
-        await run_ops(w, case, case['ops'][:cut], lambda b, a: None, trace)
+        await run_ops(w, case, case['ops'][:cut], lambda b, a, **kw: None, trace)
         with open(out_path, 'w') as f:
             json.dump(trace, f)
             f.flush()
             os.fsync(f.fileno())
-        await run_ops(w, case, [case['ops'][cut]], lambda b, a: None, trace)
+        await run_ops(w, case, [case['ops'][cut]], lambda b, a, **kw: None, trace)
     loop.run_until_complete(go())
     sys.exit(3)        # not reached when the kill happens
 
@@ -649,26 +766,27 @@ def unhx(s):
     return bytes.fromhex(s).decode('utf-8')
 
 
-def monitor_restart(before, after, prev_restart_after):
+def monitor_restart(before, after, prev_restart_after, daemon=False):
     """before/after: World.observe() around one restart.  prev_restart_after: the observation right after the
     previous restart when NOTHING happened in between (else None).  Returns a description or None."""
-    files = {n for n, k, _ in after['disk'] if k == 'f'}
-    dirs = {n for n, k, _ in after['disk'] if k == 'd'}
+    files = {n for n, k, _ in after['disk'] if k == 'f'}       # regular files and symlinks to regular files
     blob_files = {n for n in files if STRICT_HASH.fullmatch(unhx(n))}
     rows_b = dict(before['db']) if before is not None else None
     rows_a = dict(after['db'])
     sizes = {n: sz for n, k, sz in after['disk'] if k == 'f'}
-    if before is not None and before['disk'] != after['disk']:
+    if before is not None and not daemon and before['disk'] != after['disk']:
         return 'the start changed the blob directory'
-    # 1. everything reported as completed has its file (a planted directory is outside the property: exempt)
+    if before is not None and daemon and any(e not in after['disk'] for e in before['disk']):
+        return 'the daemon start removed or changed an entry of the blob directory'
+    # 1. everything reported as completed has its file (a directory or a dangling link under that name is NOT a file)
     for h in after['completed']:
-        if h not in files and h not in dirs:
+        if h not in files:
             return f'{unhx(h)[:12]}.. is reported as completed but has no file'
     #    ... "and therefore announces": the announcer's work list, under either setting, only holds hashes with a file
     for which, lst in (('announce_head_and_sd_only=False', after['announce_all']),
                        ('announce_head_and_sd_only=True', after['announce_head'])):
         for h in lst:
-            if h not in files and h not in dirs:
+            if h not in files:
                 return (f'{unhx(h)[:12]}.. (status {rows_a.get(h)!r}) has no file but is handed to the DHT announcer '
                         f'after the start ({which})')
     # 2. every blob file present is recorded as finished
@@ -677,21 +795,23 @@ def monitor_restart(before, after, prev_restart_after):
             return f'blob file {unhx(n)[:12]}.. is present but recorded as {rows_a.get(n)!r}'
     # 3. finished rows whose file has disappeared are downgraded; finished rows have their file
     for h, st in (rows_b or {}).items():
-        if st == 'finished' and h not in files and h not in dirs:
+        if st == 'finished' and h not in files:
             if rows_a.get(h) != 'pending':
                 return f'{unhx(h)[:12]}.. was finished, its file is gone, now recorded as {rows_a.get(h)!r}'
     for h, st in rows_a.items():
-        if st == 'finished' and h not in files and h not in dirs:
+        if st == 'finished' and h not in files:
             return f'{unhx(h)[:12]}.. is recorded as finished after the start but has no file'
     # what must not change: no row dropped, rows invented only for present files, other rows untouched
     for h, st in (rows_b or {}).items():
         if h not in rows_a:
             return f'the start deleted the row of {unhx(h)[:12]}..'
-        if h not in files and h not in dirs and st != 'finished' and rows_a[h] != st:
+        if h not in files and st != 'finished' and rows_a[h] != st:
             return f'the start changed the row of absent {unhx(h)[:12]}.. from {st} to {rows_a[h]}'
     if rows_b is not None:
         for h in rows_a:
-            if h not in rows_b and h not in files:
+            # (a daemon start may re-insert the rows of a recovered stream as 'pending'; a 'finished' one without a
+            #  file is caught by clause 3 above)
+            if h not in rows_b and h not in files and not (daemon and rows_a[h] == 'pending'):
                 return f'the start invented a row for {unhx(h)[:12]}.. which has no file'
             if h not in rows_b and h in files and after.get('lengths', {}).get(h) != sizes[h]:
                 return (f'the start recorded {unhx(h)[:12]}.. with length {after.get("lengths", {}).get(h)!r}, '
@@ -702,7 +822,7 @@ def monitor_restart(before, after, prev_restart_after):
         missing = blob_files - rep
         if missing:
             return f'second start does not report present blob file {unhx(sorted(missing)[0])[:12]}..'
-        extra = rep - files - dirs
+        extra = rep - files
         if extra:
             return f'second start reports {unhx(sorted(extra)[0])[:12]}.. which is not present'
         if after['db'] != prev_restart_after['db']:
@@ -777,10 +897,19 @@ def gen_case(rng, nops, with_dirs=False, inject=True, toggle_save=False):
                 ops.append({'op': 'ext_file', 'n': n, 'size': len(blobs[lit]) // 2, 'true_content': True})
             else:
                 ops.append({'op': 'ext_file', 'n': n, 'size': rng.choice(EXT_SIZES)})
+        elif c < 0.55:
+            # a blob relocated to another volume and linked back (or a foreign file linked in)
+            lit = n if isinstance(n, str) else None
+            if rng.random() < 0.6:
+                ops.append({'op': 'ext_remove', 'n': n})
+            ops.append({'op': 'ext_link', 'n': n,
+                        'target': len(blobs[lit]) // 2 if lit in blobs and rng.random() < 0.6 else rng.choice(EXT_SIZES)})
         elif c < 0.9 or not with_dirs:
             ops.append({'op': 'ext_remove', 'n': n})
-        else:
+        elif c < 0.95:
             ops.append({'op': 'ext_dir', 'n': n})
+        else:
+            ops.append({'op': 'ext_link', 'n': n, 'target': None})      # dangling symlink (outside, like a directory)
 
     def burst():
         # several operations in a row on ONE hash: stale cache entries, replaced files, rows without files ...
@@ -794,6 +923,9 @@ def gen_case(rng, nops, with_dirs=False, inject=True, toggle_save=False):
                 ops.append({'op': 'touch', 'h': h, 'len': ln})
             elif c < 0.44:
                 ops.append({'op': 'ext_file', 'n': h, 'size': ln, 'true_content': True})
+            elif c < 0.48:
+                ops.append({'op': 'ext_remove', 'n': h})
+                ops.append({'op': 'ext_link', 'n': h, 'target': rng.choice([ln, ln, 3, REAL_MAX + 1])})
             elif c < 0.54:
                 ops.append({'op': 'ext_file', 'n': h, 'size': rng.choice([0, 1, ln + 1, max(ln - 1, 0), REAL_MAX,
                                                                           REAL_MAX + 1])})
@@ -873,8 +1005,6 @@ def gen_case(rng, nops, with_dirs=False, inject=True, toggle_save=False):
                 ops.append({'op': 'ext_dir', 'n': any_name()})
     ops.append({'op': 'restart', 'mode': 'new'})
     ops.append({'op': 'restart', 'mode': rng.choice(['new', 'stop_new', 'stop_same'])})
-    if with_dirs:
-        case['outside_property'] = 'directories planted under blob-hash names'
     return case
 
 
@@ -886,6 +1016,10 @@ def prestate_case(names_states):
             ops.append({'op': 'ext_file', 'n': n, 'size': 3})
         elif d == 'd':
             ops.append({'op': 'ext_dir', 'n': n})
+        elif d == 's':
+            ops.append({'op': 'ext_link', 'n': n, 'target': 7})        # symlink to a regular file
+        elif d == 'l':
+            ops.append({'op': 'ext_link', 'n': n, 'target': None})     # dangling symlink
         if r != '-':
             ops.append({'op': 'ext_db', 'h': n, 'st': 'pending' if r == 'p' else 'finished'})
     ops += [{'op': 'restart', 'mode': 'new'}, {'op': 'restart', 'mode': 'new'}, {'op': 'restart', 'mode': 'stop_same'}]
@@ -908,6 +1042,84 @@ def big_case(unrecorded, recorded=57, missing=20):
     return {'blobs': {}, 'streams': [], 'ops': ops, 'kind': 'batch:%d' % unrecorded}
 
 
+def gen_daemon_case(rng):
+    """histories whose restarts are whole DAEMON starts (BlobManager.setup + the real StreamManager start-up) over
+    managed streams (published through StreamManager.create, with a claim) whose sd / content blob files vanish,
+    come back, or are deleted through the API.  Blob files of managed streams only ever get their true content back
+    (so the blob_length column keeps the descriptor's lengths, the tie's precondition for recovery)."""
+    nb = rng.randrange(2, 4)
+    blobs = {}
+    for _ in range(nb):
+        d = rng.randbytes(rng.choice(LENGTHS))
+        blobs[hashlib.sha384(d).hexdigest()] = d.hex()
+    pool = list(blobs)
+    case = {'blobs': blobs, 'streams': [], 'ops': []}
+    ops = case['ops']
+    if rng.random() < 0.2:
+        ops.append({'op': 'restart', 'mode': 'new', 'save': False, 'daemon': True})
+    nstreams = rng.choice([1, 1, 2, 3])
+    for i in range(nstreams):
+        case['streams'].append(make_stream(rng, i, nblobs=rng.choice([0, 1, 2, 2, 3])))
+        ops.append({'op': 'publish', 'stream': i, 'managed': True})
+        if rng.random() < 0.3:
+            h = rng.choice(pool)
+            ops.append({'op': 'complete', 'h': h, 'len': len(blobs[h]) // 2})
+    if rng.random() < 0.3:
+        case['streams'].append(make_stream(rng, nstreams))          # an unmanaged stream next to them
+        ops.append({'op': 'publish', 'stream': nstreams})
+
+    def stream_blob():
+        i = rng.randrange(nstreams)
+        hs, sd = expected_of(case['streams'][i])
+        j = rng.choice(['sd', 'sd'] + list(range(len(hs))))
+        name = {'stream': i, 'blob': j}
+        size = sd[1] if j == 'sd' else hs[j][1]
+        return name, size
+
+    for _ in range(rng.randrange(2, 6)):
+        for _ in range(rng.randrange(1, 5)):
+            c = rng.random()
+            n, size = stream_blob()
+            if c < 0.45:
+                ops.append({'op': 'ext_remove', 'n': n})
+            elif c < 0.6:
+                ops.append({'op': 'ext_file', 'n': n, 'size': size, 'restore': True})
+            elif c < 0.72:
+                ops.append({'op': 'delete', 'hs': [n], 'from_db': rng.random() < 0.5})
+            elif c < 0.8:
+                ops.append({'op': 'ext_mark', 'h': n})
+            elif c < 0.9:
+                h = rng.choice(pool)
+                ops.append({'op': 'complete', 'h': h, 'len': len(blobs[h]) // 2})
+            else:
+                h = rng.choice(pool)
+                ln = len(blobs[h]) // 2
+                ops.append({'op': 'crash_write', 'h': h, 'len': ln, 'written': ln})
+                break
+        r = {'op': 'restart', 'mode': rng.choice(['new', 'stop_new', 'stop_same']), 'daemon': rng.random() < 0.75}
+        if rng.random() < 0.12:
+            r['save'] = rng.random() < 0.5
+        ops.append(r)
+        if rng.random() < 0.5:
+            ops.append({'op': 'restart', 'mode': rng.choice(['new', 'stop_same']), 'daemon': rng.random() < 0.5})
+    ops.append({'op': 'restart', 'mode': 'new', 'daemon': True, 'save': True})
+    ops.append({'op': 'restart', 'mode': rng.choice(['new', 'stop_new', 'stop_same']), 'daemon': rng.random() < 0.5})
+    return case
+
+
+def vanished_in_pages_case(total=2000, gone=(10, 11, 12, 13, 14, 900, 901, 902)):
+    """a LARGE table: `total` finished rows, every file present except those at the given positions IN blob_hash
+    ORDER (a start that walked the finished rows in pages while downgrading would skip rows right after a page
+    boundary: 900-902 sit just behind the first 900)"""
+    names = sorted(hname(i) for i in range(total))
+    gone = set(gone)
+    ops = [{'op': 'ext_file', 'n': n, 'size': i % 5, 'q': True} for i, n in enumerate(names) if i not in gone]
+    ops += [{'op': 'ext_db', 'h': n, 'st': 'finished', 'q': True} for n in names]
+    ops += [{'op': 'ext_mark', 'h': names[i], 'q': True} for i in sorted(gone)]
+    ops += [{'op': 'restart', 'mode': 'new'}, {'op': 'restart', 'mode': 'new'}]
+    return {'blobs': {}, 'streams': [], 'ops': ops, 'kind': 'vanished-in-pages:%d' % total}
+
+
 # ------------------------------------------------------------------------------------------------
 # one case end to end
 # ------------------------------------------------------------------------------------------------
@@ -920,13 +1132,19 @@ class RestartMonitor:
         self.restarts = restart_indexes
         self.n = 0
         self.last_after, self.last_idx = None, -2
+        self.last_daemon = False
         self.bad = []
 
-    def __call__(self, before, after):
+    def __call__(self, before, after, daemon=False, save_switched=False):
         i = self.restarts[self.n]
         self.n += 1
+        # "a further restart with nothing changed": the start right before, of the same or a fuller kind (a daemon
+        # start after a bare BlobManager restart does more), with the same save_blobs setting
         prev = self.last_after if self.last_idx == i - 1 else None
-        b = monitor_restart(before, after, prev)
+        if save_switched or (daemon and not self.last_daemon):
+            prev = None
+        self.last_daemon = daemon
+        b = monitor_restart(before, after, prev, daemon=daemon)
         if b:
             self.bad.append((i, b))
         self.last_after, self.last_idx = after, i
@@ -1116,7 +1334,13 @@ def main(run):
                 'in-process restart with the database write of a just completed blob still queued / restart (fresh objects, stop()+fresh, stop()+setup() on the same '
                 'object; in a quarter of the histories some '
                 'restarts switch config.save_blobs off or on), always ending with two restarts; '
-                'pre-state enumeration: every combination of (absent|file|directory) x (no row|pending|finished) per name; a '
+                'ext_link (symlink to a regular file on another volume: a relocated blob; dangling symlink and sub-directory in every eighth '
+                'history); daemon-start histories: 1-3 managed streams published through the real StreamManager.create with a claim, '
+                'their sd / content blob files removed, restored with true content or deleted through the API, restarts that run '
+                'BlobManager.setup AND the real StreamManager.initialize_from_database (recover_streams, _load_stream); '
+                'a 2000-row table (all finished, files vanished at positions 10-14 and 900-902 in hash order; not scaled '
+                'down: the unchanged sync_missing_blobs reads no page-size constant); pre-state enumeration: every combination of (absent|file|symlink to file|directory|dangling symlink) '
+                'x (no row|pending|finished) per name; a '
                 '>500-file directory for the batch branch; name strings one edit away from a blob hash. distinct = distinct '
                 'case content; non-trivial = more than one kind of operation.')
     import time as _time
@@ -1128,23 +1352,30 @@ def main(run):
         check_case(run, model, case, 'corpus:' + nm)
     mark('corpus')
     # all nine (disk, row) combinations in one directory, then every pair (quick) / triple (thorough)
-    combos = [(d, r) for d in '-fd' for r in '-pF']
-    check_case(run, model, prestate_case([(hname(i), d, r) for i, (d, r) in enumerate(combos)]), 'prestate-all9')
-    files_only = [(d, r) for d in '-f' for r in '-pF']
+    combos = [(d, r) for d in '-fsdl' for r in '-pF']
+    check_case(run, model, prestate_case([(hname(i), d, r) for i, (d, r) in enumerate(combos)]), 'prestate-all15')
+    files_only = [(d, r) for d in '-fs' for r in '-pF']
     check_case(run, model, prestate_case([(hname(i), d, r) for i, (d, r) in enumerate(files_only)]), 'prestate-files6')
     if run.tier == 'thorough':
         for a in combos:
             for b in combos:
-                for c in combos:
+                for c in combos[::3]:
                     check_case(run, model, prestate_case([(hname(0), *a), (hname(1), *b), (hname(2), *c)]), 'prestate-3')
         run.exhaustive = True
     else:
         for a in combos:
-            for b in combos[::2]:
+            for b in combos[::4]:
                 check_case(run, model, prestate_case([(hname(0), *a), (hname(1), *b)]), 'prestate-2')
     mark('prestates')
     for unrec in vlib.scaled(run.tier, [513], [499, 500, 501, 502, 513, 1001, 1002, 1003, 1600]):
         check_case(run, model, big_case(unrec), 'batch')
+    # more than 900 finished rows (SQLiteStorage.MAX_QUERY_VARIABLES) with vanished files before and right after
+    # position 900; the constant is not read by the unchanged sync_missing_blobs, so the instance is really large
+    t_large = _time.time()
+    check_case(run, model, vanished_in_pages_case(), 'large-table')
+    if run.tier == 'thorough':
+        check_case(run, model, vanished_in_pages_case(3000, (0, 1, 899, 900, 901, 1797, 1798, 1799, 1800, 2999)), 'large-table')
+    run.notes.append({'large_table_case_seconds': round(_time.time() - t_large, 1)})
     mark('batch')
     # one stream with the real 2 MiB chunking
     real = {'blobs': {}, 'streams': [make_stream(rng, 0, real=True)],
@@ -1156,6 +1387,9 @@ def main(run):
     for i in range(vlib.scaled(run.tier, 3, 60)):
         check_case(run, model, gen_kill_case(rng, ['publish_crash', 'crash_write', None][i % 3]), 'real-kill')
     mark('real-kill')
+    for _ in range(vlib.scaled(run.tier, 30, 600)):
+        check_case(run, model, gen_daemon_case(rng), 'daemon-start')
+    mark('daemon-starts')
     n_hist = vlib.scaled(run.tier, 140, 2500)
     for i in range(n_hist):
         nops = rng.choice([6, 12, 20, 30, 40])
